@@ -23,7 +23,7 @@ ASSUMPTIONS = ['the solo run of the same binary with the same options and workin
                'golden programs are staged in separate sub-directories that are all on the include path in both runs']
 MANIFEST = dict(
     category='exploration', design_ref='DESIGN.md §4 C18',
-    technique='history-based runtime monitor: per-file code file, diagnostic event log (hook H4) and status of a multi-file execution compared with solo executions',
+    technique='history-based runtime monitor: per-file code file, diagnostic event log (hook H4) and status of a multi-file execution compared with solo executions (pairs/triples of programs, short files of golden statements, and all ordered pairs of one-statement files per CPU section)',
     text='Held on the executions of this run: for ordered pairs and triples drawn from the 201 golden sources plus generated predecessors that end inside open '
          'MACRO/IF/SECTION/STRUCT/SAVE/PHASE/EXPECT constructs or change sticky settings (RADIX, RELAXED, CHARSET, PADDING, CPU, macros/functions/symbols named after '
          'the successor), the code file of every file, diagnostics and status contribution equalled its solo run.',
